@@ -10,3 +10,4 @@ pub mod desc;
 pub mod schema;
 pub mod scoping;
 pub mod luaexec;
+pub mod tyws;
